@@ -96,7 +96,9 @@ def _dispatch(chk, repo, mod, W):
                           truths={"%s.is_integer()" % kv: kk == "float-integer",
                                   "%s == self.zero" % vv: vk != "nonzero", "%s == self._zero" % vv: vk != "nonzero",
                                   "%s != self.zero" % vv: vk == "nonzero", "%s != self._zero" % vv: vk == "nonzero"},
-                          raising=["%s.is_integer()" % kv] if kk == "int" else [])
+                          raising=["%s.is_integer()" % kv] if kk == "int" and not hasattr(int, "is_integer") else [])
+                if kk == "int" and hasattr(int, "is_integer"):
+                    F.truths["%s.is_integer()" % kv] = True      # int.is_integer() exists from Python 3.12 on
                 w = walk(loops[0].body, F, "Poly.__init__ compaction")
                 n_tab += 1
                 t = w.texts()
@@ -105,6 +107,9 @@ def _dispatch(chk, repo, mod, W):
                 want_moved = kk == "float-integer"
                 want_dropped = vk == "zero"
                 # moving deletes the old key first; dropping deletes the (new) key last
+                if kk == "int" and moved:
+                    # re-keying an int power under its own value is a no-op (3.12: int.is_integer()): tolerated
+                    want_moved = True
                 ok = w.end == "fall" and moved == want_moved and dels == int(want_moved) + int(want_dropped)
                 if ok and want_moved:
                     ok = t.index("del self._data[%s]" % kv) < t.index("%s = rint(%s)" % (kv, kv)) < t.index("self._data[%s] = %s" % (kv, vv))
